@@ -1676,9 +1676,30 @@ impl<'a> Sim<'a> {
                 let c = if self.rng.chance(10) { b"k".to_vec() } else { vec![] };
                 self.call(i, Op::Propose(c, d))
             }
-            25..=36 => {
+            25..=33 => {
                 let (t, d) = self.random_cc();
                 self.call(i, Op::ProposeCc(t, vec![], d))
+            }
+            34..=36 => {
+                // one MsgPropose with several entries, membership changes among them (a forwarded batch)
+                let mut m = Message::default();
+                m.set_msg_type(MessageType::MsgPropose);
+                m.from = self.nodes[i].id;
+                let k = 2 + self.rng.below(2);
+                let mut ents = vec![];
+                for _ in 0..k {
+                    let mut e = Entry::default();
+                    if self.rng.chance(60) {
+                        let (t, d) = self.random_cc();
+                        e.set_entry_type(etype(t));
+                        e.data = d.into();
+                    } else {
+                        e.data = self.payload().into();
+                    }
+                    ents.push(e);
+                }
+                m.set_entries(ents.into());
+                self.call(i, Op::Step(m))
             }
             37..=48 => {
                 let c = format!("r{}", self.next_payload).into_bytes();
@@ -1889,7 +1910,17 @@ impl<'a> Sim<'a> {
                 900..=949 if self.malformed => {
                     // undecodable / damaged configuration-change payloads offered to the leader
                     let t = self.leader().unwrap_or(i);
-                    if self.nodes[t].st.is_some() {
+                    let pending_target = self.nodes[t].st.as_ref().and_then(|st| st.rn.raft.lead_transferee);
+                    if let (Some(x), true) = (pending_target, self.rng.chance(40)) {
+                        // a membership change that demotes / removes the target of a pending leader transfer is
+                        // applied (directly: the correspondence is per node) while the transfer is pending
+                        let mut cc = ConfChangeV2::default();
+                        let ty = if self.rng.chance(50) { ConfChangeType::AddLearnerNode } else { ConfChangeType::RemoveNode };
+                        cc.mut_changes().push(single(ty, x));
+                        if self.call(t, Op::ApplyConfChange(cc)) {
+                            self.housekeeping(t, true);
+                        }
+                    } else if self.nodes[t].st.is_some() {
                         let d = self.junk_bytes();
                         let ty = 1 + self.rng.below(2);
                         if self.call(t, Op::ProposeCc(ty, vec![], d)) {
